@@ -442,3 +442,25 @@ def batch_reentry_keeps_retry(chk, ctx):
         defs = {var: [norm(d.value) for d in name_defs(j, var) if isinstance(d, ast.Assign)] for var in ("retry_count", "retry_timeout")}
         ok = all(any("RetryCount" in v or "RetryTimeout" in v for v in vs) for vs in defs.values())
         chk.ob("C07.R7", "the counters restored are the ones saved in the branch record", ok, str(defs), key="%s | source of the restored retry counters %s" % (j.qname, defs), where=j.where(), message="")
+
+
+# C11.R6: the input recorded in the Context Object is not the live event data
+def execution_input_is_a_copy(chk, ctx):
+    se = ctx.mod("state_engine")
+    st = se.func("StateEngine.start_execution")
+    sets = [s for s in body_nodes(st) if isinstance(s, ast.Assign) and norm(s.targets[0]) == "execution['Input']"]
+    chk.floor("C11.R6", len(sets), 1, "assignments of Execution.Input in start_execution")
+    for s in sets:
+        v = norm(s.value)
+        ok = v in ("copy.deepcopy(data)", "deepcopy(data)", "json.loads(json.dumps(data))")
+        chk.ob("C11.R6", "start_execution: Execution.Input = %s (a copy of the event data)" % v, ok, "",
+               key="StateEngine.start_execution | $$.Execution.Input is `%s`, the live event data" % v, where=se.line(s),
+               message="states place their results into the event data in place (ResultPath): if the context holds the same object, $$.Execution.Input and the input reported when an EXPRESS "
+                       "execution ends show the first state's result as well - the views of one execution disagree about its input")
+    # and nobody writes it afterwards
+    n = 0
+    for q, f in sorted(se.funcs.items()):
+        for s in body_nodes(f):
+            if isinstance(s, ast.Assign) and any(isinstance(t, ast.Subscript) and const(t.slice) == "Input" and "xecution" in norm(t.value) for t in s.targets) and q != st.qname:
+                n += 1
+                chk.ob("C11.R6", "%s does not rewrite Execution.Input" % q, False, "", key="%s | rewrites Execution.Input" % q, where=se.line(s), message="")
